@@ -192,10 +192,14 @@ def finish(prop: str, mod, tier: str, seed: int, cases: list, records: list, t0:
     classes = Counter(json.dumps(r["cls"], default=str)
                       for r in ok if r.get("cls") is not None and r.get("nontrivial", True))
     n_obs = sum(int(r.get("n_obs", 1)) for r in ok)
+    # modules that enumerate many distinct inputs inside one case report the count themselves
+    n_distinct = len(classes)
+    if any("distinct" in r for r in ok):
+        n_distinct = sum(int(r.get("distinct", 0)) for r in ok)
 
     cov = {
-        "evaluations": len(ok) + len(viol) + len(known),
-        "distinct_nontrivial": len(classes),
+        "evaluations": (n_obs + len(viol) + len(known)) if getattr(mod, "COUNT_OBS_AS_EVALUATIONS", False) else (len(ok) + len(viol) + len(known)),
+        "distinct_nontrivial": n_distinct,
         "rule": getattr(mod, "RULE", ""),
         "samples": [_sample(by_id.get(r["case_id"]), r) for r in (ok[:3] + viol[:2] + known[:2])],
         "cases_generated": len(cases),
@@ -227,8 +231,8 @@ def finish(prop: str, mod, tier: str, seed: int, cases: list, records: list, t0:
         need = getattr(mod, "MIN_DECIDING", {}).get(tier, 1)
         if len(ok) + len(known) < need:
             reasons.append(f"only {len(ok) + len(known)} deciding cases (< {need})")
-        if len(classes) < 2:
-            reasons.append(f"only {len(classes)} distinct non-trivial classes")
+        if n_distinct < 2:
+            reasons.append(f"only {n_distinct} distinct non-trivial cases/classes")
         cc = getattr(mod, "coverage_check", None)
         if cc:
             msg = cc(records, cases, tier)
